@@ -626,6 +626,35 @@ def c03_disconnect_runs(ctx, binp):
     return runs
 
 
+def c17_periodic_run(ctx, binp):
+    """Beyond the listed request path: with no recording window the daemon makes a test recording of its own one minute
+    after the first camera connection (snapshotRecordingTriggers -> newSnapshotRecording).  One slow stream of ~75 s;
+    SystemTrace.tla expects exactly one extra file of 21 consecutive frames next to the predicted motion files."""
+    rng = ctx.rng
+    fps = 3
+    settings = dict(min=1, max=5, preview=1, const=False, throttle=False, motion=dict(FIXED_MOTION, **{"trigger-frames": 2}), device="dev", deviceid=7)
+    w, h = 4, 3
+    fsize = 640 + 2 * w * h
+    ev = [dict(ev="conn", N=settings["preview"] * fps + 2, TrigF=2, MinF=settings["min"] * fps, MaxF=settings["max"] * fps, ConstOn=False, firstid=1, newrun=True)]
+    payload, pace, hot = bytearray(), [], False
+    for fid in range(1, 301):
+        motion = (fid % 40) in (5, 6, 7, 8)
+        if motion:
+            hot = not hot
+        payload += lepton_frame(w, h, fid, 300 if hot else 200, 60000 + fid * 100)
+        pace.append(len(payload))
+        ev.append(dict(ev="frame", id=fid, motion=motion))
+    conn = dict(header=dict(ResX=w, ResY=h, FPS=fps, FrameSize=fsize, Model="lepton3", Brand="flir", CameraSerial=2, Firmware="1.0.0"),
+                payload=base64.b64encode(bytes(payload)).decode(), cuts=[], settle_ms=60, pace_at=pace, pace_ms=250)
+    scen = dict(config=toml(settings), prefiles=[], conns=[conn])
+    try:
+        evs = run_e2e(ctx, binp, scen, "c17_periodic")
+    except DaemonCrash as dc:
+        return [dict(kind="crash", settings=settings, fps=fps, model="lepton3", msg=dc.msg, result=dict(files=[], constant=[]))]
+    last = [e for e in evs if e["ev"] == "e2e-conn-done"][-1]
+    return [dict(kind="predict", settings=settings, fps=fps, model="lepton3", model_events=ev, result=last, scen=scen, ntest=1, expected_motion={})]
+
+
 def c17_reconnect_runs(ctx, binp):
     """C17 across camera reconnects within one daemon run (and a daemon restart on the same output directory is the
     prefiles case of C10): the continuous recorder is set up anew by every handleConn, its directory already exists
